@@ -800,6 +800,40 @@ impl World {
         }
     }
 
+    /// For each parked pipeline task: the operator chain and the instruction it
+    /// is parked at, recovered from the pipeline's `Debug` rendering (needs no
+    /// hook in the repository).
+    pub fn describe_parked(&self) -> Vec<String> {
+        let mut out = Vec::new();
+        for (i, t) in self.tasks.iter().enumerate() {
+            if t.state != TState::Parked {
+                continue;
+            }
+            if let TKind::Pipeline { p, query, .. } = &t.kind {
+                let dbg = format!("{:?}", p);
+                let mut names: Vec<String> = Vec::new();
+                if let Some(pos) = dbg.rfind("operator_profiles: [") {
+                    for part in dbg[pos..].split("operator_name: \"").skip(1) {
+                        if let Some(end) = part.find('"') {
+                            names.push(part[..end].to_string());
+                        }
+                    }
+                }
+                let instr = match dbg.find("instructions: [") {
+                    Some(pos) => {
+                        let rest = &dbg[pos + 15..];
+                        let end = rest.find(']').unwrap_or(rest.len().min(200));
+                        rest[..end].to_string()
+                    }
+                    None => String::new(),
+                };
+                let part = dbg.find("partition_idx: ").map(|pos| dbg[pos + 15..].chars().take_while(|c| c.is_ascii_digit()).collect::<String>()).unwrap_or_default();
+                out.push(format!("task#{i} query{query} partition{part} polls={} ops=[{}] parked_at=[{}]", t.polls, names.join(">"), instr));
+            }
+        }
+        out
+    }
+
     /// (task id, polls, state name, is_client) for hang reports.
     pub fn task_table(&self) -> Vec<(TaskId, u64, &'static str, bool)> {
         self.tasks
